@@ -277,10 +277,11 @@ func runC04(env *lib.Env, rep *lib.Report) {
 	rep.Bounds["second-level subsets (crash inside the recovery of a torn image)"] = map[bool]string{true: "all subsets (<= 10 pages)", false: "not torn in the quick tier"}[env.Thorough()]
 	rep.Bounds["images claimed by an open known finding"] = map[bool]string{true: "executed and counted", false: "counted but not executed in the quick tier"}[env.Thorough()]
 	rep.Bounds["suffix"] = "after the final recovery: none, or one statement of {INSERT 1, UPDATE half/all, DELETE upper/last/all} per table, then crash + recovery + model check"
-	seeds := []string{"t1x8", "t1x8+t2t3", "interleaved", "t1x12+t2x1", "t1x8-upper-deleted"}
+	// ("empty": a database that has only seen DDL - its log is empty when the crash comes)
+	seeds := []string{"t1x8", "t1x8+t2t3", "interleaved", "t1x12+t2x1", "t1x8-upper-deleted", "empty"}
 	if env.Thorough() {
 		d = 2
-		seeds = append(seeds, "empty", "t1x30", "t1x8+t2t3-crashed", "catalog-split")
+		seeds = append(seeds, "t1x30", "t1x8+t2t3-crashed", "catalog-split")
 	}
 	alpha := alphaOpt{Tables: []string{"t1", "t2"}, Inserts: []int{1, 9}, Updates: true, Deletes: true}
 	var cfgs []histCfg
